@@ -20,6 +20,10 @@ def run_case(nvoters, F, seed, steps=120):
     cfg = {'voters': ids, 'init_connected': True, 'period': 10.0, 'fallback': float(F)}
     if memb:
         cfg['membership'] = True
+    # read-only nodes stay connected to the leader and keep answering it whatever happens to the voters
+    observers = ['o1', 'o2'][:rng.choice([0, 0, 1, 2])] if not memb else []
+    if observers:
+        cfg['observers'] = observers
     cl = sc.Cluster(cfg)
     trace = []
     try:
@@ -80,6 +84,11 @@ def run_case(nvoters, F, seed, steps=120):
                 dt = rng.choice([0, 3, 3, 5, 10, 10, 11, 12] + ([20, 30, F - 1, F, F + 1] if rng.random() < 0.25 else []))
                 cl.step(('Tick', 'a', str(int(dt))))
                 obs('Tick')
+                for o_ in observers:
+                    while cl.applicable(('Deliver', 'a', o_)):
+                        cl.step(('Deliver', 'a', o_))
+                    while cl.applicable(('Deliver', o_, 'a')) and L.obj._isLeader():
+                        deliver_to_leader(o_)
                 # followers answer what they received, unless cut off
                 for f in ids[1:]:
                     if f in cut:
